@@ -5,6 +5,7 @@ import (
 	"encoding/json"
 	"fmt"
 	"os"
+	"os/exec"
 	"reflect"
 	"runtime"
 	"sync"
@@ -21,7 +22,8 @@ import (
 // An instance is one writer or one reader with its own sink/source and options.
 type InstSpec struct {
 	Reader bool      `json:"reader"`
-	W      *Workload `json:"w"` // the writer's workload, or the workload whose file the reader reads
+	W      *Workload `json:"w"`                 // the writer's workload, or the workload whose file the reader reads
+	FailAt int       `json:"fail_at,omitempty"` // writers: the sink's k-th Write fails once (0 = never)
 }
 
 type inst struct {
@@ -83,6 +85,9 @@ func (in *inst) step() bool {
 		if in.sink == nil {
 			in.sink = &faultSink{}
 		}
+		if in.spec.FailAt > 0 {
+			in.sink.failAt, in.sink.mode = in.spec.FailAt, "once"
+		}
 		pw, err := in.f.NewWriter(in.sink, w.PageSize, w.Codec)
 		if err != nil {
 			in.err = "new: " + err.Error()
@@ -96,13 +101,13 @@ func (in *inst) step() bool {
 		in.inB++
 	case in.batch < len(w.Batches):
 		if err := in.pw.Write(); err != nil {
-			in.err = "write: " + err.Error()
+			in.err += "write: " + err.Error() + ";"
 		}
 		in.batch++
 		in.inB = 0
 	default:
 		if err := in.pw.Close(); err != nil {
-			in.err = "close: " + err.Error()
+			in.err += "close: " + err.Error() + ";"
 		}
 		in.done = true
 	}
@@ -137,6 +142,7 @@ type SchedCase struct {
 	Sched  []int      `json:"schedule"`   // engine a: which instance takes the next API call (mod alive instances)
 	Junk   []int      `json:"junk_sizes"` // pool pollution: sizes of dirty buffers
 	NJunk  int        `json:"junk_buffers"`
+	Fresh  bool       `json:"fresh_process_reference,omitempty"`
 	Engine string     `json:"engine"`  // "api" | "reentrant"
 	NestAt []int      `json:"nest_at"` // engine b: sink write indices of instance 0 at which instance 1.. run
 }
@@ -173,6 +179,19 @@ func checkC13(c *SchedCase) (o *Outcome, overlap int, nested int) {
 			again := runSolo(s, files[i])
 			if !bytes.Equal(ref[i], again) {
 				return viol("C13/nondeterministic", "instance %d (%s): two solo runs of the same history give different output", i, instDesc(s))
+			}
+		}
+		// reference from a fresh process per fixture type (nothing else has run there): catches state
+		// shared between instances of different generated types that a same-process reference inherits too
+		if c.Fresh {
+			fresh, err := freshRefs(c.Insts, files)
+			if err != nil {
+				return viol("C13/harness", "fresh-process reference: %v", err)
+			}
+			for i := range c.Insts {
+				if !bytes.Equal(fresh[i], ref[i]) {
+					return viol("C13/process-history", "instance %d (%s): output in this process differs from the output of the same history in a fresh process that ran nothing else", i, instDesc(c.Insts[i]))
+				}
 			}
 		}
 		pollute(fixtures, c.Junk, c.NJunk)
@@ -262,7 +281,7 @@ func instDesc(s InstSpec) string {
 	return fmt.Sprintf("%s %s %s page=%d records=%d", k, s.W.Fixture, fx.CodecNames[s.W.Codec], s.W.PageSize, len(s.W.Records))
 }
 
-var c13Fixtures = []string{"tiny", "flat24", "nest"}
+var c13Fixtures = []string{"tiny", "flat24", "nest", "twin1", "twin2"}
 
 func genSchedCase(t *rapid.T, engine string) *SchedCase {
 	cfg := wlCfg{fixtures: fixturesFromEnv(c13Fixtures), maxRecs: 8, gen: vt.DefaultGen}
@@ -274,6 +293,9 @@ func genSchedCase(t *rapid.T, engine string) *SchedCase {
 		if i > 0 || engine != "reentrant" {
 			s.Reader = rapid.IntRange(0, 3).Draw(t, "isReader") == 0
 		}
+		if !s.Reader && rapid.IntRange(0, 4).Draw(t, "failingSink") == 0 {
+			s.FailAt = rapid.IntRange(1, 40).Draw(t, "failAt")
+		}
 		if len(s.W.Batches) > 2 {
 			k := 0
 			for _, b := range s.W.Batches[1:] {
@@ -283,6 +305,7 @@ func genSchedCase(t *rapid.T, engine string) *SchedCase {
 		}
 		c.Insts = append(c.Insts, s)
 	}
+	c.Fresh = rapid.IntRange(0, 3).Draw(t, "freshRef") == 0
 	c.Junk = rapid.SliceOfN(rapid.IntRange(1, 4000), 0, 4).Draw(t, "junk")
 	c.NJunk = rapid.IntRange(1, 6).Draw(t, "njunk")
 	if engine == "reentrant" {
@@ -311,6 +334,15 @@ func (c *SchedCase) labels(overlap, nested int) (l []string, nt bool) {
 	}
 	if len(c.Junk) > 0 {
 		l = append(l, "pools-polluted")
+	}
+	if c.Fresh {
+		l = append(l, "fresh-process-reference")
+	}
+	for _, s := range c.Insts {
+		if s.FailAt > 0 {
+			l = append(l, "some-sink-fails")
+			break
+		}
 	}
 	return
 }
@@ -407,4 +439,82 @@ func TestReplayC13(t *testing.T) {
 	}
 	o, _, _ := checkC13(&c)
 	replayResult(t, "C13", o)
+}
+
+// ---- fresh-process references ------------------------------------------------
+
+type childJob struct {
+	Specs []InstSpec `json:"specs"`
+	Files [][]byte   `json:"files"`
+	Out   [][]byte   `json:"out"`
+}
+
+// freshRefs runs, for every fixture type of the case, the solo histories of that type's instances in a
+// newly started copy of this test binary.
+func freshRefs(specs []InstSpec, files [][]byte) ([][]byte, error) {
+	out := make([][]byte, len(specs))
+	byFix := map[string][]int{}
+	var order []string
+	for i, s := range specs {
+		if _, ok := byFix[s.W.Fixture]; !ok {
+			order = append(order, s.W.Fixture)
+		}
+		byFix[s.W.Fixture] = append(byFix[s.W.Fixture], i)
+	}
+	for _, fxn := range order {
+		job := childJob{}
+		for _, i := range byFix[fxn] {
+			job.Specs = append(job.Specs, specs[i])
+			job.Files = append(job.Files, files[i])
+		}
+		tmp, err := os.CreateTemp("", "c13job*.json")
+		if err != nil {
+			return nil, err
+		}
+		b, _ := json.Marshal(&job)
+		tmp.Write(b)
+		tmp.Close()
+		cmd := exec.Command(os.Args[0], "-test.run", "^TestC13Child$")
+		cmd.Env = append(os.Environ(), "VERIF_C13_CHILD="+tmp.Name(), "VERIF_STATS=", "VERIF_FAILDIR=")
+		if msg, err := cmd.CombinedOutput(); err != nil {
+			os.Remove(tmp.Name())
+			return nil, fmt.Errorf("child: %v: %s", err, msg)
+		}
+		b, err = os.ReadFile(tmp.Name())
+		os.Remove(tmp.Name())
+		if err != nil {
+			return nil, err
+		}
+		var res childJob
+		if err := json.Unmarshal(b, &res); err != nil || len(res.Out) != len(job.Specs) {
+			return nil, fmt.Errorf("child result unreadable: %v", err)
+		}
+		for k, i := range byFix[fxn] {
+			out[i] = res.Out[k]
+		}
+	}
+	return out, nil
+}
+
+// TestC13Child is the body of the fresh process.
+func TestC13Child(t *testing.T) {
+	p := os.Getenv("VERIF_C13_CHILD")
+	if p == "" {
+		t.Skip()
+	}
+	b, err := os.ReadFile(p)
+	if err != nil {
+		t.Fatal(err)
+	}
+	var job childJob
+	if err := json.Unmarshal(b, &job); err != nil {
+		t.Fatal(err)
+	}
+	for i, s := range job.Specs {
+		job.Out = append(job.Out, runSolo(s, job.Files[i]))
+	}
+	b, _ = json.Marshal(&job)
+	if err := os.WriteFile(p, b, 0644); err != nil {
+		t.Fatal(err)
+	}
 }
